@@ -237,6 +237,11 @@ class OptionShape(Shape):
             return [v.some] + self.inner.unpack(v.inner)
         return [z3.BoolVal(True)] + self.inner.unpack(v)
 
+    def fresh(self, st, name):
+        some = z3.Bool(fresh_name(name + ".some"))
+        inner = self.inner.fresh(st, name)
+        return SOpt(some, inner)
+
     def pack(self, ts):
         inner = self.inner.pack(ts[1:])
         if z3.is_true(ts[0]):
